@@ -90,4 +90,10 @@ META = {
   "note": "A process-killing panic in a library goroutine is attributed through the in-flight case file written before each case; resource bounds are coarse envelopes.",
   "technique": "property-based testing (rapid) + mutation + native go fuzzing, with invariant oracle over delivered values; child-process probes",
  },
+ "C10": {
+  "text": "Fault enumeration: for each recorded transcript of a corpus of client programs, every byte offset of the server stream is used as the fault point for four fault kinds, and termination / error reporting / goroutine clean-up are checked. Exhaustive per transcript; the corpus itself is fixed (9 programs, larger literals in the thorough tier).",
+  "design_ref": "DESIGN.md 3/C10",
+  "note": "Liveness is judged with a 6 s bound on operations that take microseconds (in-memory I/O, virtual deadlines), with the goroutine dump in the report; replay assumes the client's writes up to the fault are deterministic for a sequential program.",
+  "technique": "fault injection enumeration over every byte offset of recorded transcripts (EOF / read error / write error / stall)",
+ },
 }
